@@ -241,7 +241,7 @@ def _gen_args(eng, t, op, m, d, base, rich=True):
 
     def num(name, lo, hi):
         return eng.fresh_int('%s%d' % (name, t), lo, hi, cls=SymUid)
-    shapes = ['n', 'r', 'star', 'nstar']
+    shapes = ['n', 'r', 'star', 'nstar'] + (['nn', 'rn'] if rich and m <= 2 else [])
     a = {}
     uidm = op in ('uidstore', 'uidexpunge')
     if op in ('store', 'uidstore', 'uidexpunge', 'fetch_body', 'fetch_peek', 'copy', 'move'):
@@ -258,6 +258,10 @@ def _gen_args(eng, t, op, m, d, base, rich=True):
             a['set'] = [mk('a')]
         elif sh == 'r':
             a['set'] = [(mk('a'), mk('b'))]
+        elif sh == 'nn':
+            a['set'] = [mk('a'), mk('b')]          # may name the same message twice
+        elif sh == 'rn':
+            a['set'] = [(mk('a'), mk('b')), mk('c')]   # overlapping range and number
         elif sh == 'star':
             a['set'] = ['*']
         else:
